@@ -106,6 +106,7 @@ def run(chk, repo, tier):
     chk.ob('C17-b', 'D-factor', f.key, 'OPD = rescale(opd, scale) without extra factor', okb_opd and n_opd > 0, '', f.loc())
     chk.ob('C17-c', 'N-sibling', f.key, 'mask rescaled with order 0 in the monolithic and the segmented branch',
            okc_order and n_mask >= 2, f'{n_mask} mask branch(es)', f.loc())
+    mask_rescale_siblings(chk, repo, 'C17-c', rets)
     chk.ob('C17-c', 'R-binary', f.key, 'mask re-binarised (nonzero -> 1)',
            (okc_bin and n_mask > 0) if (not bin_unknown or not okc_bin) else None,
            f'undecided: no range model for {bin_unknown[0]}' if bin_unknown else 'stored mask has value set {0, 1}', f.loc())
@@ -187,6 +188,34 @@ def run(chk, repo, tier):
                 okc = okc and good
             chk.ob('C17-f', 'U-axis', fu.key, f'all {len(mc)} map_coordinates calls get [row coordinates, column coordinates] [{tag}]',
                    okc, '', fu.loc(mc[0].node))
+
+
+def mask_rescale_siblings(chk, repo, clause, rets=None):
+    """The global (2-D) and the per-segment (3-D) mask are interpolated with identical settings, so
+    that the rescaled segment masks tile the rescaled global mask."""
+    f = repo.func('plane.Plane.rescale')
+    if rets is None:
+        _, paths, _ = analyse(repo, f)
+        rets = returns(paths)
+    settings = {}
+    for p in rets:
+        for e in p.events:
+            if e.kind == 'write' and e.data.get('how') == 'attrstore' and e.data.get('attr') == '_mask':
+                for a in nf.value_atoms(e.data['value']):
+                    if is_app(a, 'call:util.rescale'):
+                        b = bound_of(a)
+                        key = tuple(sorted((k, nf.vkey(v)) for k, v in b.items() if k != 'img'))
+                        seg = any(x[0] == 'iter' for x in nf.value_atoms(b.get('img')))
+                        settings.setdefault(key, set()).add('segmented' if seg else 'global')
+    kinds = set().union(*settings.values()) if settings else set()
+    if kinds != {'segmented', 'global'}:
+        chk.undecided(clause, 'N-sibling', f.key, 'global and per-segment masks are interpolated with the same settings',
+                      f'mask rescale calls found for: {sorted(kinds)}', f.loc())
+        return
+    det = '; '.join(f'{sorted(v)}: ' + ', '.join(f'{k}={val}' for k, val in key if k in ('order', 'mode', 'unitary', 'scale'))
+                    for key, v in settings.items())
+    chk.ob(clause, 'N-sibling', f.key, 'global and per-segment masks are interpolated with the same settings',
+           len(settings) == 1, det[:400], f.loc())
 
 
 def _astype_int(v):
